@@ -39,6 +39,10 @@ func main() {
 		switch a[i] {
 		case "-i":
 			inputs = append(inputs, next())
+		case "-note":
+			if i+1 < len(a) && !strings.HasPrefix(a[i+1], "-") {
+				i++
+			}
 		case "-sep":
 			sep = next()
 		case "-j":
